@@ -205,7 +205,28 @@ def run_compose(pid, tier, seed):
     return res
 
 
+def run_hist(pid, tier, seed):
+    vh = vlib.build_harness()
+    r1 = []
+    if pid == "C14":
+        r1.append(vlib.model_check("StackBuf.tla", "MC_StackBuf_thorough.cfg" if tier == "thorough" else "MC_StackBuf.cfg"))
+        r1.append(vlib.model_check("StackBuf.tla", "MC_StackBuf_neg.cfg", expect_violation="NoStaleRead"))
+    else:
+        for cfg, neg in [("MC_ReaderAlias.cfg", None), ("MC_ReaderAlias_neg.cfg", "ReturnedValuesImmutable")]:
+            if os.path.exists(os.path.join(vlib.SPEC, cfg)):
+                r1.append(vlib.model_check("ReaderAlias.tla", cfg, expect_violation=neg))
+    g = vlib.run_gen(vh, "hist", tier, seed, only="buf" if pid == "C14" else "rdr")
+    res = {"r1": r1, "gens": [g]}
+    if "hang" in g:
+        res["hang"] = g["hang"]
+        return res
+    bads, consumed, notes = vlib.validate("TraceHist.tla", "TraceHist.cfg", g["files"], xmx="3g")
+    res.update(bads=bads, consumed=consumed, notes=notes)
+    return res
+
+
 FAMILIES = {
+    "hist": {"run": run_hist},
     "compose": {"run": run_compose},
     "trees": {"run": run_trees},
     "floats": {"run": run_floats},
@@ -374,6 +395,31 @@ CHECKS.update({
             "level_text": "R1 proves on all structural strings up to the bound that every member slice parses on its own to the member's "
                           "subtree and end offset; the recorded decoders (written only against the public API) are checked by TLC for "
                           "final offset, reconstructed tree, and rejection by validating programs.",
+            "level_note": MC_NOTE},
+})
+
+CHECKS.update({
+    "C14": {"family": "hist", "level": "model_checking",
+            "rule": "histories of 2..6 calls on one Buffer over Valid, SkipValue, SkipValueFast, HandleArrayValues, HandleObjectValues x a document "
+                    "alphabet with one representative per outcome class (shallow/deep ok, syntax error at depth, depth-limit error, truncated deep "
+                    "nests, 10000/10001 nests, random containers and mutations) x 7 handler behaviours (return 0; exact offset via SkipValue / "
+                    "SkipValueFast on the enclosing buffer; abort with an error at call k; recursive nested traversals sharing the buffer; Valid on "
+                    "the same buffer; unrelated deep and failing documents through the same buffer mid-traversal); every step is also run with no "
+                    "buffer; distinct = distinct history",
+            "technique": "TLA+ model of slice headers/arrays/activations (NoStaleRead, R1 with a negative config) + TLC validation of recorded histories: shared-buffer outcome = nil-buffer outcome = spec (R3)",
+            "level_text": "The stack discipline (local header and top per activation, handler invoked only at top = 0, header stored back on "
+                          "every exit, in-place vs re-allocating growth) is model-checked for stale reads, with a negative configuration that "
+                          "must fail; recorded histories including re-entrant sharing are checked step by step by TLC against the no-buffer "
+                          "outcome and the history-free specification.",
+            "level_note": MC_NOTE + "; outcomes are observed at the API (results and handler call logs), not inside the stack"},
+    "C15": {"family": "hist", "level": "model_checking",
+            "rule": "histories of 2..6 ReadValue/ReadObject/ReadArray calls on one ValueReader over tree-shape documents, random documents and "
+                    "mutations, 10001-deep and truncated deep nests, with forced GCs (sync.Pool perturbation), input overwritten after every "
+                    "call, caller scribbling over half of the results; every step also on a brand-new reader; every unmodified earlier result "
+                    "re-serialised after every later call; distinct = distinct history",
+            "technique": "TLA+ history-free reader spec (Value trees) + aliasing model (R1 with a negative config) + TLC validation of recorded reader histories and rechecks (R3)",
+            "level_text": "Each step's result must equal the fresh reader's and the grammar's tree (TLC), and every earlier returned value must "
+                          "be unchanged when re-serialised later; the aliasing model shows why fresh allocation per container is required.",
             "level_note": MC_NOTE},
 })
 
